@@ -84,6 +84,14 @@ pub fn cases(tier: Tier) -> Vec<PairCase> {
             c.upload_frame = 16384;
             v.push(c);
         }
+        // padded uploads under flow control: the padding is charged to sozu's windows, far more of it
+        // than one window holds over the life of the stream
+        for (n, frame, pad) in [(30000usize, 100usize, 255u8), (200000, 1000, 200), (70000, 16000, 1)] {
+            let mut c = PairCase::simple(Proto::H2, back, vec![x(n, 3)]);
+            c.upload_frame = frame;
+            c.windowed_padding = Some(pad);
+            v.push(c);
+        }
         // a slow client with wide windows, download and upload at the same time:
         // sozu's writes stall inside frames while it owes WINDOW_UPDATEs for the upload
         for pace in [700usize, 5000, 20000] {
